@@ -368,7 +368,6 @@ theorem evalOk_inv (Inv : Store → Prop) (Q : Req → Prop) (hstep : ∀ s r, I
 
 theorem ensureOpt_issues_mat (g : Generator) (ref : Option TlsRef) (sg : Signer) (n : Nat) :
     Issues MatReq (ensureOpt g ref sg n) := by
-  have := tlsStep_issues_mat g "" ref none n
   unfold ensureOpt ensureLeaf issueLeaf
   split
   · exact .ret _
